@@ -9,6 +9,10 @@ Theorem lockprogs_flat :
     all_flat lockprogs = true.
 Proof. exact (@lockprogs_flat_l). Qed.
 
+Theorem derived_share_lock :
+    derived_share_lock bundle_literals = true.
+Proof. exact (@derived_share_lock_l). Qed.
+
 Theorem bundle_ops_safe :
     forall (threads : list (list prog)) (s : sys),
     (forall calls : list prog, In calls threads -> forall c : prog, In c calls -> In c all_paths) ->
@@ -87,6 +91,7 @@ Theorem legacy_not_flat_thm :
 Proof. exact (@legacy_not_flat). Qed.
 
 Print Assumptions lockprogs_flat.
+Print Assumptions derived_share_lock.
 Print Assumptions bundle_ops_safe.
 Print Assumptions flat_safe_generic.
 Print Assumptions writer_exclusion_generic.
